@@ -16,3 +16,42 @@ inductive Reach (P : Problem) : Nat → Option Nat → Rat → List Nat → Prop
       Reach P v pv c path → some s ∈ P.succs pv v → Reach P s.w (some v) (c + s.c) (s.w :: path)
 
 end AdaptaVerif.Lemmas.AStarSpec
+
+namespace AdaptaVerif.Lemmas.AStarSpec
+open AdaptaVerif.Model.AStar
+
+/-- executable companion of `Reach`: continue from state (v, pv) (cost `c`, path so far `path`, last
+    vertex first) along the vertices `rest`, taking at every step the first successor entry that leads to
+    the next vertex; result: final (previous vertex, vertex, cost, path), or `none` if some step is not an
+    edge of the state graph -/
+def walk (P : Problem) : Option Nat → Nat → Rat → List Nat → List Nat → Option (Option Nat × Nat × Rat × List Nat)
+  | pv, v, c, path, [] => some (pv, v, c, path)
+  | pv, v, c, path, w :: rest =>
+    match (P.succs pv v).find? (fun o => match o with | some s => s.w = w | none => false) with
+    | some (some s) => walk P (some v) s.w (c + s.c) (s.w :: path) rest
+    | _ => none
+
+/-- what `walk` accepts is a path of the state graph -/
+theorem walk_sound (P : Problem) (rest : List Nat) :
+    ∀ (pv : Option Nat) (v : Nat) (c : Rat) (path : List Nat) (pv' : Option Nat) (v' : Nat) (r : Rat) (path' : List Nat),
+      Reach P v pv c path → walk P pv v c path rest = some (pv', v', r, path') → Reach P v' pv' r path' := by
+  induction rest with
+  | nil =>
+    intro pv v c path pv' v' r path' hr hw
+    simp only [walk, Option.some.injEq, Prod.mk.injEq] at hw
+    obtain ⟨rfl, rfl, rfl, rfl⟩ := hw
+    exact hr
+  | cons w rest ih =>
+    intro pv v c path pv' v' r path' hr hw
+    simp only [walk] at hw
+    split at hw
+    · rename_i s hfind
+      exact ih _ _ _ _ _ _ _ _ (Reach.step s hr (List.mem_of_find?_eq_some hfind)) hw
+    · simp at hw
+
+/-- from the start node -/
+theorem walk_start_sound (P : Problem) (rest : List Nat) (pv' : Option Nat) (v' : Nat) (r : Rat) (path' : List Nat)
+    (h : walk P none P.src 0 [P.src] rest = some (pv', v', r, path')) : Reach P v' pv' r path' :=
+  walk_sound P rest none P.src 0 [P.src] pv' v' r path' Reach.start h
+
+end AdaptaVerif.Lemmas.AStarSpec
